@@ -28,10 +28,13 @@ class EnumRecursiveEncoder(QuasiLazyEncoder):
             return []
 
         n = self.n_divide
-        n_var = int(np.ceil(np.log(n_mat)/np.log(n)))
 
         # Get design vector values that lead to inactive variables (due to nr cutoff)
         dv_last = np.array(self.base_repr_int(n_mat-1, n))
+
+        # The nr of variables is the nr of digits needed for the last matrix index (a floating-point log-ratio is off by
+        # one if the nr of matrices is an exact power of n, e.g. log(27)/log(3) > 3)
+        n_var = len(dv_last)
         i_inactive = np.where(dv_last == 0)[0]
         if len(i_inactive) > 0:
             left_side_values = dv_last[:i_inactive[-1]+1].copy()
